@@ -116,6 +116,9 @@ func genConfig(r *vc.Rand, i int) *Config {
 	c.UserAt = genUserAt(r)
 	if r.Chance(1, 3) {
 		c.UserAfter = r.Range(1, 14)
+		if os.Getenv("VERIF_PROP") == "C03" && r.Chance(1, 2) {
+			c.UserConcurrent = true
+		}
 	}
 	c.IDSofC = vc.Pick(r, []string{"none", "right", "right", "wrong", "case"})
 	c.IDCofS = vc.Pick(r, []string{"none", "right", "right", "wrong", "case"})
@@ -181,6 +184,9 @@ func evaluate(col *vc.Collector, c *Config, res result) {
 			col.Violation("C08", "panic:"+strings.SplitN(e.S, "\n", 2)[0], e.S, c.ID, wit())
 		}
 	}
+	if c.UserConcurrent {
+		col.Count("C03", "user-action-in-parallel-with-a-delivery", 1)
+	}
 	// per endpoint monitors
 	for _, x := range []struct {
 		who    string
@@ -222,10 +228,18 @@ func evaluate(col *vc.Collector, c *Config, res result) {
 	col.Class("C03", kind+":outcome:"+class)
 	col.Count("C03", kind+":"+class, 1)
 	if strings.HasPrefix(class, "disagree") {
-		col.Violation("C03", "disagree-at-quiescence:"+kind, class, c.ID, wit())
+		sig := "disagree-at-quiescence:" + kind
+		if c.UserConcurrent {
+			sig = "timely:user-action-in-parallel-with-a-delivery"
+		}
+		col.Violation("C03", sig, class, c.ID, wit())
 	}
 	if s.Setups > 1 || cl.Setups > 1 {
-		col.Violation("C03", "setup-more-than-once", fmt.Sprintf("S %d C %d", s.Setups, cl.Setups), c.ID, wit())
+		sig := "setup-more-than-once"
+		if c.UserConcurrent {
+			sig = "timely:user-action-in-parallel-with-a-delivery"
+		}
+		col.Violation("C03", sig, fmt.Sprintf("S %d C %d", s.Setups, cl.Setups), c.ID, wit())
 	}
 	if c.Timely && len(c.Causes) == 0 {
 		want := expect(c, res.UserState, res.UserStateC)
@@ -248,6 +262,11 @@ func evaluate(col *vc.Collector, c *Config, res result) {
 			}
 		}
 		bad := func(why string) {
+			if c.UserConcurrent {
+				// recorded finding: the user's action ran in parallel with the handling of a message
+				col.Violation("C03", "timely:user-action-in-parallel-with-a-delivery", fmt.Sprintf("expected %s (%s), observed %s", want, why, class), c.ID, wit())
+				return
+			}
 			if approvedBeforeHello && why == "not-both-complete" {
 				// the recorded finding is exactly this: the outstanding hello is rejected in the protocol
 				// phase and both sides end; any other outcome (e.g. both sides hanging) is a different failure
